@@ -295,6 +295,9 @@ class C10(common.Prop):
         if out.get("inplace") is not None:
             return {"what": "the in-place methods pow_(2), tensor.add_(1), fix_nan() on input %s do not leave v*v + 1 with NaN -> 0 (infinities "
                             "kept) under an unchanged mask" % (out["inplace"],), "step": None, "op": "inplace", "kind": "inplace"}
+        if out.get("batchedmatmul"):
+            return {"what": "masked (3, 4) x plain batched matrix (2, 4, 5): %s (expected (2, 3, 5) for both, a row valid iff all its entries are)"
+                            % (out["batchedmatmul"],), "step": None, "op": "batched-matmul", "kind": "shape"}
         if out.get("graphshape"):
             return {"what": "in graph mode (tf.function, leading extent unknown at trace time) masked (1, 3) <op> plain (5, 3) gives %s"
                             % (out["graphshape"],), "step": None, "op": "graph-broadcast", "kind": "shape"}
